@@ -2,8 +2,9 @@
 
 stage 1  TLC checks spec/Proxy.tla exhaustively (MC_Proxy.tla constants): the implementation-shaped
          model (ProxyManager.urlopen -> pool urlopen -> _get_conn -> _prepare_proxy -> connect: TLS to
-         proxy, CONNECT, TLS(-in-TLS) to origin -> request; environment = CONNECT reply, peer closing
-         the connection between requests) satisfies every Rules clause; the coverage is read back
+         proxy, CONNECT, TLS(-in-TLS) to origin -> request -> ManagerRedirect re-entering with the same
+         header carrier; environment = CONNECT reply, peer closing the connection between exchanges,
+         3xx redirect to the other scheme of the destination, i.e. forwarded -> tunnel and back) satisfies every Rules clause; the coverage is read back
          (an action that never fired is a machinery failure); and every named design-level deviation
          (constant Bug) must make TLC report the clause that is meant to catch it (non-vacuity).
 stage 2  TLC emits every finished behaviour of the model as a scenario: configuration, the
@@ -36,7 +37,8 @@ EXTRA = ["TypeOK", "StateAgrees", "RouteTableAgrees", "RequestHeadersNotOnConnec
 BUGS = {"no_tunnel_https_proxy": "HttpsOnlyViaTunnelUnlessOptedIn", "merge_always": "ProxyHeadersOnlyToProxy",
         "prepare_first_only": "Retunnelled", "proxy_sni": "OriginNameVerifiedInsideTunnel",
         "strip_brackets": "ConnectTargetExact", "ignore_refusal": "NoRequestAfterRefusal",
-        "origin_form_to_proxy": "FormByRoute", "setproxyhdr_https": None}   # None: harmless, nothing may fire
+        "origin_form_to_proxy": "FormByRoute", "carrier_mutated": "ProxyHeadersOnlyToProxy",
+        "setproxyhdr_https": None}   # None: harmless, nothing may fire
 DEVIATION_ONLY_ACTIONS = {"TlsDirectAtPlainProxy"}
 
 MC_CFG = """SPECIFICATION MCSpec
@@ -54,6 +56,8 @@ CONSTANTS
   MaxReq = {maxreq}
   MaxBad = {maxbad}
   Replies = {{"200", "403", "407", "502", "garbage"}}
+  MaxRedir = {maxredir}
+  RedirCodes = {codes}
   Bug = "{bug}"
   ShardK = {K}
   ShardS = {S}
@@ -76,9 +80,12 @@ CONSTANTS
   MaxReq = 1
   MaxBad = 0
   Replies = {"200"}
+  MaxRedir = 0
+  RedirCodes = {}
   Bug = "none"
 CHECK_DEADLOCK FALSE
 """
+ALL_CODES = '{"301", "302", "303", "307", "308"}'
 ALL_HK, ALL_PORT = '{"name", "ipv4", "ipv6"}', '{"default", "explicit"}'
 PLANS = {
     # route x reply x certificates x retries x sequences, richest headers, one host form
@@ -92,17 +99,25 @@ PLANS = {
                   maxreq=3, maxbad=2),
     "forms2": dict(hk=ALL_HK, port=ALL_PORT, pc='{"ok"}', oc='{"ok", "proxyname"}', ph="PH_All", rh="RH_All",
                    rs="{0, 1}", maxreq=2, maxbad=1),
+    # redirected histories: http:// (forwarded) -> https:// (tunnel) and back, every 3xx code, on every route
+    "redir": dict(hk='{"name"}', port=ALL_PORT, pc='{"ok"}', oc='{"ok"}', ph="PH_Full", rh="RH_Full", rs="{1}",
+                  maxreq=1, maxbad=1, maxredir=1, codes=ALL_CODES),
+    "redir2": dict(hk='{"name", "ipv6"}', port=ALL_PORT, pc='{"ok"}', oc='{"ok", "untrusted"}',
+                   ph="PH_Full", rh="RH_Full", rs="{1}", maxreq=2, maxbad=1, maxredir=1,
+                   codes='{"301", "303", "307"}'),
     "full": dict(hk=ALL_HK, port=ALL_PORT, pc='{"ok", "untrusted", "wrongname"}',
                  oc='{"ok", "untrusted", "wrongname", "proxyname"}', ph="PH_All", rh="RH_All", rs="{0, 1}",
-                 maxreq=3, maxbad=6),
+                 maxreq=3, maxbad=6, maxredir=1, codes=ALL_CODES),
     "bugs": dict(hk='{"name", "ipv6"}', port='{"default"}', pc='{"ok"}', oc='{"ok", "proxyname"}', ph="PH_Full",
-                 rh="RH_Full", rs="{0, 1}", maxreq=2, maxbad=1),
+                 rh="RH_Full", rs="{0, 1}", maxreq=2, maxbad=1, maxredir=1, codes='{"302"}'),
 }
 
 
 def mc_cfg(plan, invs, bug="none", K=1, S=0, emit=False):
+    d = dict(maxredir=0, codes="{}")
+    d.update(PLANS[plan])
     return MC_CFG.format(bug=bug, K=K, S=S, emit="TRUE" if emit else "FALSE",
-                         invs="\n".join("INVARIANT " + i for i in invs), **PLANS[plan])
+                         invs="\n".join("INVARIANT " + i for i in invs), **d)
 
 
 # ------------------------------------------------------------------------------ driving the real code
@@ -145,7 +160,8 @@ def run_scenario(sc):
     pcfg = {"ps": cfg["ps"], "pcert": cfg["pcert"], "ocert": cfg["ocert"], "dest": pn.HOSTS[cfg["hk"]]}
     ph = dict(HEADER_VALUES[x] for x in sorted(cfg["ph"])) or None
     rh = dict(HEADER_VALUES[x] for x in sorted(cfg["rh"])) or None
-    with pn.ProxyNet(pcfg, sc["replies"], sc["closes"]) as nw, warnings.catch_warnings():
+    redirs = {r["path"]: (r["code"], r["loc"]) for r in sc.get("redirs", [])}
+    with pn.ProxyNet(pcfg, sc["replies"], sc["closes"], redirs) as nw, warnings.catch_warnings():
         warnings.simplefilter("ignore")
         pm = urllib3.ProxyManager(f"{cfg['ps']}://{pn.PROXY_HOST}:{pn.PROXY_PORT}", proxy_headers=ph,
                                   ca_certs=world.ca_path, maxsize=1,
@@ -172,17 +188,18 @@ def run_scenario(sc):
 
 
 def canonical(events):
-    """The party threads log some events (a failed handshake, the reply already sent) slightly after
-    the client has moved on to its next connection.  Connections of one request are used strictly
-    one after the other, so ordering each request's events by connection restores the causal order."""
-    out, bracket = [], []
+    """A party thread logs a FAILED handshake only after the client has already seen the alert and
+    may have dialled its next connection.  Nothing else ever happens on such a connection, so the
+    event is moved back to right after the last earlier event of its own connection (its causal
+    place).  Every other event is logged by the party before it answers, i.e. already in causal order."""
+    out = []
     for e in events:
-        bracket.append(e)
-        if e["ev"] == "end":
-            bracket.sort(key=lambda x: (0 if x["ev"] == "start" else 2 if x["ev"] == "end" else 1, x["cid"]))
-            out += bracket
-            bracket = []
-    return out + bracket
+        if e["ev"] == "tls" and not e["done"]:
+            pos = max((i for i, x in enumerate(out) if x["cid"] == e["cid"]), default=len(out) - 1) + 1
+            out.insert(pos, e)
+        else:
+            out.append(e)
+    return out
 
 
 def norm_expected(log):
@@ -224,9 +241,14 @@ def corrupted_traces(scenarios):
     CONNECT, each corrupted in a single field, must be rejected by TLC with exactly the clause that
     field belongs to (independent of how the real code behaves)."""
     import copy
-    base = refused = None
+    base = refused = redirected = None
     for sc in scenarios:
         c, ev = sc["cfg"], sc["log"]
+        if sc.get("redirs"):
+            if redirected is None and c["ds"] == "http" and not c["fwd"] and sc["nreq"] == 1 and \
+                    all(r == "200" for r in sc["replies"]) and any(e["party"] == "origin" for e in ev):
+                redirected = (sc, ev)
+            continue
         if c["ds"] == "https" and not c["fwd"] and c["hk"] == "name" and c["port"] == "default":
             if base is None and sc["nreq"] == 1 and sc["replies"] == ["200"] and c["ocert"] == "ok" and \
                     c["pcert"] == "ok" and c["ph"] and any(e["party"] == "origin" for e in ev):
@@ -234,7 +256,7 @@ def corrupted_traces(scenarios):
             if refused is None and sc["nreq"] == 1 and sc["replies"] == ["407"] and c["pcert"] == "ok" and \
                     c["retries"] == 0:
                 refused = (sc, ev)
-    if base is None or refused is None:
+    if base is None or refused is None or redirected is None:
         raise tlc.MachineryError("no base traces for the monitor self-test among the emitted scenarios")
     out = []
 
@@ -260,6 +282,10 @@ def corrupted_traces(scenarios):
            "NoRequestAfterRefusal")
     mutate(base, lambda e: e["ev"] == "end", lambda e: e.update(kind="error", status=0, by="", exc=["ProtocolError"]),
            "Retunnelled")
+    # a redirected request (http:// forwarded, then https:// through a tunnel): proxy header inside the tunnel,
+    # and the second hop sent to the proxy in absolute-form instead of through the tunnel
+    mutate(redirected, is_origin, lambda e: e.update(hdr=sorted(e["hdr"] + ["ptag"])), "ProxyHeadersOnlyToProxy")
+    mutate(redirected, is_origin, lambda e: e.update(target="/r1"), "FormByRoute")
     mutate(refused, lambda e: e["ev"] == "end", lambda e: e.update(exc=["ProtocolError", "OSError"]), "RefusalRaises")
     mutate(refused, lambda e: e["ev"] == "end", lambda e: e.update(kind="response", status=200, by="origin", exc=[]),
            "RefusalRaises")
@@ -267,13 +293,14 @@ def corrupted_traces(scenarios):
 
 
 def sc_key(sc):
-    return json.dumps([sc["cfg"], sc["nreq"], sc["replies"], sorted(sc["closes"])], sort_keys=True)
+    return json.dumps([sc["cfg"], sc["nreq"], sc["replies"], sorted(sc["closes"]),
+                       [[r["path"], r["code"]] for r in sc.get("redirs", [])]], sort_keys=True)
 
 
 def nontrivial(sc):
     c = sc["cfg"]
     return bool(sc["nreq"] > 1 or sc["closes"] or any(r != "200" for r in sc["replies"]) or c["pcert"] != "ok"
-                or c["ocert"] != "ok")
+                or c["ocert"] != "ok" or sc.get("redirs"))
 
 
 def clean(o):
@@ -353,7 +380,7 @@ def _absorb(rep, results, findings):
         if nontrivial(sc):
             rep.nontrivial.add(hashlib.md5(sc_key(sc).encode()).hexdigest()[:16])
             if len(rep.samples) < 4 and (len(rep.samples) < 2 or sc["closes"]):
-                rep.sample({"scenario": {k: sc[k] for k in ("cfg", "nreq", "replies", "closes")},
+                rep.sample({"scenario": {k: sc[k] for k in ("cfg", "nreq", "replies", "closes", "redirs")},
                             "recorded": [{k: v for k, v in e.items() if v != pn.BLANK[k]} for e in o["events"]],
                             "verdict": o["clause"]})
         for a, b in zip(sc.get("log") or [], o["events"]):
@@ -385,18 +412,20 @@ def run(rep):
     quick = rep.tier == "quick"
     findings = known.load("C09")
     rep.rule = ("a scenario is one TLC behaviour of spec/Proxy.tla (configuration, CONNECT replies, closes between "
-                "requests, expected log) replayed on the real ProxyManager; it is non-trivial when it has more than one "
-                "request, a close between requests, a non-200 CONNECT reply or a bad proxy/origin certificate; "
+                "exchanges, redirects http<->https, expected log) replayed on the real ProxyManager; it is non-trivial "
+                "when it has more than one request, a close between exchanges, a redirect, a non-200 CONNECT reply or a "
+                "bad proxy/origin certificate; "
                 "distinct_nontrivial counts distinct (configuration, environment) pairs")
     rep.assumptions = ["TLS, certificate-chain validation and http.client's status-line parsing are trusted (OpenSSL, "
                        "CPython); the proxy party is ground truth for who received which bytes",
-                       "one destination per scenario, GET requests, maxsize=1 pools, finite timeouts",
+                       "one destination host per scenario (both schemes of it when redirected), GET requests, at most one "
+                       "redirect per request, maxsize=1 pools, finite timeouts",
                        "TLC 1.8 and CommunityModules are trusted"]
     world = pn.World.get()
     for kind, ident in [("ok", pn.PROXY_HOST), ("untrusted", pn.PROXY_HOST), ("wrongname", pn.PROXY_HOST)] + \
             [(k, h) for h in pn.HOSTS.values() for k in ("ok", "untrusted", "proxyname")]:
         world.ctx_for(kind, ident)          # minted before the fork: workers share them
-    plans = ["core", "forms"] if quick else ["core3", "forms2"]
+    plans = ["core", "forms", "redir"] if quick else ["core3", "forms2", "redir2"]
     K = 1 if quick else 8
     nsim = 300 if quick else 4000
     nproc = min(J, 12 if quick else 16)
@@ -406,7 +435,7 @@ def run(rep):
             # ---- stage 1 runs asynchronously in the same pool while the scenarios are replayed
             emis = pool.map_async(_emit_shard, [(p, K, s) for p in plans for s in range(K)])
             sim = pool.apply_async(_simulate, ((nsim, rep.seed + 1),))
-            s1jobs = [(f"MC_Proxy[{p}]", p, HARD + EXTRA, "none", p == plans[0]) for p in plans]
+            s1jobs = [(f"MC_Proxy[{p}]", p, HARD + EXTRA, "none", True) for p in plans]
             s1jobs += [(f"MC_Proxy[bugs,Bug={b}]", "bugs", [c] if c else HARD, b, False) for b, c in BUGS.items()]
             s1 = pool.map_async(_stage1, s1jobs)
             scenarios, seen, emitted = [], set(), 0
@@ -474,12 +503,11 @@ def run(rep):
                     if o["violated"]:
                         rep.violation("DesignModel", f"TLC: {o['violated']} violated by the model of {o['name']}",
                                       {"kind": "stage1", "plan": o["plan"]})
-                    if o["coverage"]:
-                        dead = [a for a, (_, tot) in o["coverage"].items()
-                                if tot == 0 and a not in DEVIATION_ONLY_ACTIONS]
-                        if dead or len(o["coverage"]) < 10:
-                            raise tlc.MachineryError(f"{o['name']}: actions never taken: {dead} (vacuous model)")
-                        rep.extra["action_coverage"] = {a: t for a, (_, t) in o["coverage"].items()}
+                    if len(o["coverage"]) < 10:
+                        raise tlc.MachineryError(f"{o['name']}: no action coverage reported")
+                    cov = rep.extra.setdefault("action_coverage", {})
+                    for a, (_, tot) in o["coverage"].items():
+                        cov[a] = cov.get(a, 0) + tot
                 else:
                     want = BUGS[o["bug"]]
                     if want is None and o["violated"]:
@@ -487,6 +515,9 @@ def run(rep):
                     if want is not None and o["violated"] != [want]:
                         raise tlc.MachineryError(f"{o['name']}: the deviation should violate {want}, TLC reported "
                                                  f"{o['violated']} (clause is vacuous or mis-stated)")
+            dead = [a for a, t in rep.extra["action_coverage"].items() if t == 0 and a not in DEVIATION_ONLY_ACTIONS]
+            if dead:
+                raise tlc.MachineryError(f"actions never taken in any stage-1 plan: {dead} (vacuous model)")
             rep.extra["design_deviations_caught"] = sorted(b for b, c in BUGS.items() if c)
     finally:
         shutil.rmtree(world.dir, ignore_errors=True)
